@@ -1118,3 +1118,53 @@ Proof.
 Qed.
 
 End Step.
+
+(* F9: the submodule special case keeps the older line number *)
+Definition w9 : list modsrc :=
+  [mkSrc ["wf9"] true ["a"; "c"; "x"; "y"] [];
+   mkSrc ["wf9"; "a"] false [] [SDef 1 "g" KFunc];
+   mkSrc ["wf9"; "x"] false [] [SImport 1 ["wf9"; "a"] (Some "f")];
+   mkSrc ["wf9"; "y"] false [] [SDef 1 "f" KFunc];
+   mkSrc ["wf9"; "c"] false [] [SImport 1 ["wf9"; "a"] (Some "f"); SStar 2 ["wf9"; "x"]; SStar 3 ["wf9"; "y"]; SStar 4 ["wf9"; "x"]]].
+Definition o9 : list path := [["wf9"]; ["wf9"; "a"]; ["wf9"; "x"]; ["wf9"; "y"]; ["wf9"; "c"]].
+
+Lemma special_case_lineno_refuted :
+  exists top ms order,
+    is_ok (py_import ms order []) = true /\
+    (exists l, griffe_load top ms = Done l /\ l_special l <> [] /\ l_pending l = [] /\ l_dropped l = [] /\
+               unexpanded_unreached l = [] /\ l_xpending l = []) /\
+    (forall m, In m ms -> increasing (ms_body m)) /\
+    agreeb top (loaded_table (griffe_load top ms)) (py_table (py_import ms order [])) = false /\
+    agreeb top (griffe_sched top ms order) (py_table (py_import ms order [])) = false.
+Proof.
+  exists "wf9", w9, o9. split; [vm_compute; reflexivity|]. split.
+  - eexists. split; [vm_compute; reflexivity|]. repeat split; vm_compute; congruence.
+  - split; [|split; vm_compute; reflexivity].
+    intros m Hm l1 s1 l2 s2 l3 E. simpl in Hm.
+    destruct Hm as [Hm|[Hm|[Hm|[Hm|[Hm|[]]]]]]; subst m; simpl in E;
+      repeat (destruct l1 as [|? l1]; simpl in E; try discriminate);
+      inversion E; subst;
+      repeat (destruct l2 as [|? l2]; simpl in *; try discriminate);
+      try (match goal with H : _ = _ :: _ |- _ => inversion H; subst; simpl; lia end);
+      try (match goal with H : [] = _ ++ _ :: _ |- _ => destruct l2; discriminate end).
+Qed.
+
+(* F10: expand_exports reaches a submodule while a module it names is still being expanded *)
+Definition w10 : list modsrc :=
+  [mkSrc ["wf10"] true ["m1"; "s"] [SStar 1 ["wf10"; "m1"]; SFrom 2 ["wf10"] "m1" (Some "w0") true; SSetAll 3 [IRef "w0" true]];
+   mkSrc ["wf10"; "m1"] false [] [SStar 1 ["wf10"; "s"]; SImport 2 ["wf10"; "s"] (Some "w1"); SSetAll 3 [IRef "w1" true; IStr "g"]; SDef 4 "g" KFunc];
+   mkSrc ["wf10"; "s"] true ["n1"] [SSetAll 1 [IStr "h"]; SDef 2 "h" KFunc];
+   mkSrc ["wf10"; "s"; "n1"] false [] [SStar 1 ["wf10"; "m1"]; SImport 2 ["wf10"; "m1"] (Some "w2"); SSetAll 3 [IRef "w2" true]]].
+Definition o10 : list path := [["wf10"; "s"]; ["wf10"; "m1"]; ["wf10"]; ["wf10"; "s"; "n1"]].
+
+Lemma exports_pending_read_refuted :
+  exists top ms order,
+    is_ok (py_import ms order []) = true /\
+    (exists l, griffe_load top ms = Done l /\ l_xpending l <> [] /\ l_dropped l = [] /\ unexpanded_unreached l = []) /\
+    agreeb top (loaded_table (griffe_load top ms)) (py_table (py_import ms order [])) = false /\
+    agreeb top (griffe_sched top ms order) (py_table (py_import ms order [])) = true.
+Proof.
+  exists "wf10", w10, o10. split; [vm_compute; reflexivity|]. split.
+  - eexists. split; [vm_compute; reflexivity|]. repeat split; vm_compute; congruence.
+  - split; vm_compute; reflexivity.
+Qed.
